@@ -1,5 +1,5 @@
 """C19 -- exceeding a configured capacity is reported, never silently corrupting (structural clauses)."""
-from ..rules import capacity, dispatch, search
+from ..rules import capacity, dispatch, process, search
 
 EXPLANATION = (
     "Static analysis of capacity guards: the constructor path that allocates the stacks entails 1 <= stack_max_height <= 2^bits of the level pointer's dtype; before the indirect value-heuristic call solve_one's path facts entail top + P < len(stack) with P the largest net push of any registered value heuristic (derived: 2); the shaving probe is reached only under top + 1 < len(stack). uint16 cumulative constraint offsets are listed as undecided (NumPy raises on the inconsistent slice, not claimed). Also: no index array is produced by a wrapping conversion to an 8/16-bit type (astype, array-of-array) -- np.array(list, dtype=narrow) raises on overflow."
@@ -11,4 +11,5 @@ def check(ctx, prog):
     search.rule_solve_one(ctx, prog, want=("R-CAPACITY",))
     capacity.rule_probe_guard(ctx, prog)
     capacity.rule_narrow_convert(ctx, prog)
+    process.rule_marker_worker(ctx, prog)  # scope: a worker whose search overflowed does not announce completion
     dispatch.rule_mode_arith(ctx, prog)  # scope: the capacity guards hold in both execution modes
